@@ -3,6 +3,7 @@ import CEProofs.C10Gauss
 import CEProofs.C10Kde
 import CEProofs.C10Poisson
 import CEProofs.C10Geom
+import CEProofs.C10GeomSvd
 #print axioms CE.Knn.row_perm_mi
 #print axioms CE.Knn.row_perm_cmi
 #print axioms CE.Knn.row_perm_mi_idx
@@ -47,3 +48,11 @@ import CEProofs.C10Geom
 #print axioms CE.Geom.geomCMI_z_col_perm_partial
 #print axioms CE.Geom.geomMI_row_perm
 #print axioms CE.Geom.geomCMI_row_perm
+#print axioms CE.Geom.colPerm_eq_rotOf
+#print axioms CE.Geom.permQ_orth
+#print axioms CE.Geom.corrColPermInv_envSvd
+#print axioms CE.Geom.H_colperm_real
+#print axioms CE.Geom.geomMI_swap_xy_real
+#print axioms CE.Geom.clamp_geomMI_swap_xy_real
+#print axioms CE.Geom.geomCMI_swap_xy_real
+#print axioms CE.Geom.geomCMI_z_col_perm_real
